@@ -146,7 +146,12 @@ where
             // error occurs within the reader.
             let line = match self.reader.read_line(&mut buffer) {
                 Ok(l) => l,
-                Err(err) => return Some(Err(Error::Parse(ParseError::Reader(err)))),
+                Err(err) => {
+                    // The section being built (if any) is abandoned, so the
+                    // iterator must not stay in the middle of it.
+                    self.state = State::InBetweenSections;
+                    return Some(Err(Error::Parse(ParseError::Reader(err))));
+                }
             };
 
             self.line_no += 1;
@@ -160,6 +165,7 @@ where
                 None => match self.state {
                     State::InBetweenSections => return None,
                     State::ReadingSection => {
+                        self.state = State::InBetweenSections;
                         return Some(Err(Error::Parse(ParseError::AbruptEndInSection)));
                     }
                 },
@@ -168,7 +174,10 @@ where
             // (3) Gets the current state and errors out if we encounter a parse error.
             self.state = match get_state(&self.state, &line, self.line_no) {
                 Ok(s) => s,
-                Err(err) => return Some(Err(err)),
+                Err(err) => {
+                    self.state = State::InBetweenSections;
+                    return Some(Err(err));
+                }
             };
 
             // (4) If the section is instantiated and if we have an alignment
